@@ -355,18 +355,19 @@ impl Reason {
             // a sold listing leaving through the refund path skips its recorded fee
             Reason::SoldDelete => &["C08.status_regressed", "C10.fee_conservation", "C05.payout_delta"],
             Reason::BuyBucketNotOwned => &["C02.unexpected_success", "C04.nonowner_success"],
-            Reason::BuyNoListing
-            | Reason::BuyNotFinalized
-            | Reason::BuyWhitelist
-            | Reason::BuyMismatch
-            | Reason::BuyExpired => &["C02.unexpected_success"],
-            Reason::BuySold => &["C02.unexpected_success", "C03.sold_twice"],
+            // a purchase outside the published terms is also a non-owner changing the seller's listing
+            Reason::BuyNoListing => &["C02.unexpected_success"],
+            Reason::BuyNotFinalized | Reason::BuyWhitelist | Reason::BuyMismatch | Reason::BuyExpired => {
+                &["C02.unexpected_success", "C04.invalid_purchase"]
+            }
+            Reason::BuySold => &["C02.unexpected_success", "C03.sold_twice", "C04.invalid_purchase"],
             Reason::BuyRoyaltyCap => &["C02.unexpected_success", "C11.over_half_accepted"],
             Reason::EarlyCycle => &["C13.early_cycle"],
+            // whoever controls a collection's entry is paid out of other people's records at every trade
+            Reason::RegNotAdmin => &["C14.unexpected_success", "C04.registry_hijack"],
             Reason::RegBps
             | Reason::RegBadAddr
             | Reason::RegNotContract
-            | Reason::RegNotAdmin
             | Reason::RegExists
             | Reason::RegMissing
             | Reason::RegCooldown => &["C14.unexpected_success"],
